@@ -34,6 +34,26 @@ Theorem C03_channel_rejects : forall me ch d w,
 Proof. exact set_channel_world_rejects. Qed.
 Print Assumptions C03_channel_rejects.
 
+
+(* address_length = len with 3 <= len <= 5: SETUP_AW := len - 2, nothing else, in every world *)
+Theorem C03_address_length_encoding : forall me len d w,
+  (me < length (radios w))%nat -> 3 <= len <= 5 ->
+  exists d1 w1, set_address_length (WB me) len d w = (Ok tt, d1, w1)
+    /\ cview (get_radio w1 me) = cset (cview (get_radio w me)) 3 (Z.to_N (len - 2))
+    /\ (forall j, j <> me -> cview (get_radio w1 j) = cview (get_radio w j)).
+Proof. exact set_address_length_world. Qed.
+Print Assumptions C03_address_length_encoding.
+
+(* set_auto_retries(delay, count) for ANY integers: SETUP_RETR := 16 * ((clamp(delay, 250, 4000) - 250) / 250)
+   + clamp(count, 0, 15) -- the documented clamping and the ARD/ARC fields -- nothing else, in every world *)
+Theorem C03_auto_retries_encoding : forall me delay count d w,
+  (me < length (radios w))%nat ->
+  exists d1 w1, set_auto_retries (WB me) delay count d w = (Ok tt, d1, w1)
+    /\ cview (get_radio w1 me) = cset (cview (get_radio w me)) 4 (Z.to_N (retr_value delay count))
+    /\ (forall j, j <> me -> cview (get_radio w1 j) = cview (get_radio w j)).
+Proof. exact set_auto_retries_world. Qed.
+Print Assumptions C03_auto_retries_encoding.
+
 (* simulation: same result, same cached attributes (up to the status byte), same configuration of radio `me`,
    every other radio's configuration untouched -- for arbitrary arguments, valid or not *)
 Theorem C03_sim_setters : forall me,
